@@ -461,6 +461,78 @@ class History(Facet):
         }
 
 
+# ------------------------------------------------------------------ same name, other letter
+
+
+class SameName(Facet):
+    """Sets in which two dimensions share a NAME but carry different letters (origin and destination 'Region'):
+    only letters have to be unique, and everything addressed by letter or position must keep working."""
+
+    name = "samename"
+    exhaustive = True
+    shards = {"quick": 4, "thorough": 8}
+
+    SPEC = {
+        "a": dict(name="Alpha", items=["a0", "a1"]),
+        "r": dict(name="Region", items=["r0", "r1", "r2"]),
+        "o": dict(name="Region", items=["o0"]),
+        "t": dict(name="Time", items=[2000, 2001]),
+    }
+
+    def enumerate(self, tier):
+        for order in subtuples("arot"):
+            if "r" in order and "o" in order:
+                yield {"order": order}
+
+    def run(self, desc):
+        order = list(desc["order"])
+        mk_ = lambda l: fd.Dimension(letter=l, name=self.SPEC[l]["name"], items=list(self.SPEC[l]["items"]))
+        fresh = lambda: fd.DimensionSet(dim_list=[mk_(l) for l in order])
+        ds = fresh()
+        shape = tuple(len(self.SPEC[l]["items"]) for l in order)
+        require(tuple(ds.letters) == tuple(order) and tuple(ds.shape) == shape, "samename-basic", f"{ds.letters} {ds.shape}")
+        for i, l in enumerate(order):
+            require(ds.index(l) == i, "samename-index-by-letter", f"index('{l}') = {ds.index(l)} in {order}")
+            require(ds[l].letter == l and ds[i].letter == l, "samename-lookup-by-letter", f"{l} in {order}")
+            require(ds.size(l) == shape[i], "samename-size-by-letter", f"{l} in {order}")
+            require(l in ds, "samename-membership", l)
+            # drop / replace by letter, out of place and in place
+            exp_drop = [x for x in order if x != l]
+            require(list(ds.drop(l).letters) == exp_drop, "samename-drop", f"drop('{l}') of {order}: {ds.drop(l).letters}")
+            d2 = fresh()
+            d2.drop(l, inplace=True)
+            require(list(d2.letters) == exp_drop, "samename-drop", f"in-place drop('{l}') of {order}: {d2.letters}")
+            new = fd.Dimension(letter="g", name="Gimel", items=["g0"])
+            exp_rep = [("g" if x == l else x) for x in order]
+            exp_shape = tuple(1 if x == l else n for x, n in zip(order, shape))
+            r1 = ds.replace(l, new)
+            require(list(r1.letters) == exp_rep and tuple(r1.shape) == exp_shape, "samename-replace", f"replace('{l}') of {order}: {r1.letters} {r1.shape}")
+            d3 = fresh()
+            d3.replace(l, new, inplace=True)
+            require(list(d3.letters) == exp_rep and tuple(d3.shape) == exp_shape, "samename-replace", f"in-place replace('{l}') of {order}: {d3.letters} {d3.shape}")
+            require(list(ds.letters) == order, "samename-receiver-changed", f"after out-of-place drop/replace of {l}")
+        for sub in subtuples("".join(order)):
+            if not sub:
+                continue
+            got = ds.get_subset(tuple(sub))
+            require(list(got.letters) == list(sub), "samename-get_subset", f"{sub} of {order}: {got.letters}")
+            require(tuple(got.shape) == tuple(len(self.SPEC[l]["items"]) for l in sub), "samename-get_subset", f"shape of {sub}")
+        other = fd.DimensionSet(dim_list=[mk_("o"), mk_("t")])
+        require(list((ds & other).letters) == [l for l in order if l in "ot"], "samename-setop", "&")
+        require(list((ds - other).letters) == [l for l in order if l not in "ot"], "samename-setop", "-")
+        require(list((ds | other).letters) == order + [l for l in "ot" if l not in order], "samename-setop", "|")
+        # an array over such a set: slicing by letter addresses the right axis
+        import numpy as np
+
+        arr = fd.FlodymArray(dims=ds, values=np.arange(float(np.prod(shape))).reshape(shape))
+        for i, l in enumerate(order):
+            it = self.SPEC[l]["items"][-1]
+            sl = arr[{l: it}]
+            require(list(sl.dims.letters) == [x for x in order if x != l], "samename-slice", f"{l} of {order}: {sl.dims.letters}")
+            require(np.array_equal(sl.values, np.take(arr.values, shape[i] - 1, axis=i)), "samename-slice", f"values of arr[{{'{l}': ...}}] for {order}")
+        return {"nontrivial": len(order) >= 3, "classes": [f"ndim:{len(order)}"]}
+
+
 Prop(
     "C14",
     "exploration",
@@ -468,10 +540,12 @@ Prop(
     "named method and subset selection (exhaustive; non-trivial = partial overlap in different order). "
     "history: generated step lists over a pool of sets/arrays compared with an ordered-list model after every "
     "step (non-trivial = an in-place edit applied to a set that was returned by an out-of-place operation); "
+    "samename: every ordered subset of {a, r, o, t} holding both r and o, two dimensions named 'Region': index / lookup / "
+    "size / drop / replace / get_subset / set operators by letter and slicing of an array over the set (exhaustive). "
     "distinct = SHA-1 of the canonical case descriptor.",
-    [Pairs(), History()],
+    [Pairs(), History(), SameName()],
     assumptions=[
-        "dimension identity is the letter (the library's own rule); dimensions with the same name but different letters are not generated",
+        "dimension identity is the letter (the library's own rule); dimensions with the same name but different letters occur in facet samename only, where everything is addressed by letter or position (a lookup by such a name is ambiguous and not asserted)",
         "replace() of a dimension by one with the same letter, and several added dimensions sharing a letter among themselves, are outside the statement",
     ],
 )
